@@ -35,7 +35,10 @@ PINNED = ["C07_prompt_owner", "C07_owner_cases", "C07_bg_never_owner", "C07_grou
           "C07_wait_returns_settled", "C07_wait_gives_back_terminal", "C07_wait_fuel_suffices", "C07_wait_nonvacuous", "C07_settle_is_oracle_wait",
           "C07_wait_returns_settled_fg", "C07_wait_fg_nonvacuous", "C07_kernel_K4", "C07_kernel_truthful",
           "C07_settle_returns_settled", "C07_settle_nonvacuous",
-          "C07_wait_o_is_jobs_wait_loop", "C07_wait_fg_o_is_jobs_wait_fg_job", "C07_wait_o_echild_is_jobs_blocked", "C07_waitfg_is_jobs_wait_loop"]
+          "C07_wait_o_is_jobs_wait_loop", "C07_wait_fg_o_is_jobs_wait_fg_job", "C07_wait_o_echild_is_jobs_blocked", "C07_waitfg_is_jobs_wait_loop",
+          "C07_settled_members_invariant", "C07_kernel_actions_kchange", "C07_resumed_wait_returns_settled",
+          "C07_terminal_follows_settledness", "C07_resumed_nonvacuous",
+          "C07_waitfg_consumed", "C07_waitfg_error_after_blocked"]
 TRUSTED = ["Coq 8.16.1 kernel, extraction to OCaml, ocamlfind ocamlopt",
            "hand transcription of core.rs run_pipeline/run_single_program (setpgid, give_terminal_to, insert_job), "
            "execute.rs run_proc, jobc.rs, fg.rs, bg.rs, jobs.rs, main.rs read loop into Model/Term.v (tied by the pty sessions)",
